@@ -1,5 +1,7 @@
 package redisemu
 
+import "math"
+
 func fnHGet(ctx *cmdContext, args map[string]any) (output respValue, err error) {
 	keyName := args["key"].(string)
 	fieldName := args["field"].(string)
@@ -195,6 +197,11 @@ func fnHRandField(ctx *cmdContext, args map[string]any) (output respValue, err e
 	if options != nil {
 		count, hasCount := options.mustGet("count").(int64)
 		if hasCount {
+			if count == math.MinInt64 {
+				// -count cannot be represented (Redis limits the argument to -LONG_MAX..LONG_MAX)
+				output.data = respErrorString("ERR value is out of range")
+				return
+			}
 			c32 = int(count)
 			c = &c32
 		}
